@@ -32,6 +32,8 @@ checks = {
          "20k/300k requests whose triple the service accepts (pass-through) or whose path matches nothing (unknown-endpoint handler), with arbitrary headers, queries, bodies and lengths; the downstream handler's view must equal a snapshot taken before ServeHTTP, and the client must receive exactly what the handler wrote.", "5/C13"),
  "C18": ("fault_enumeration", "invocation counters, context capture and after-return I/O flags over an enumeration of rejection classes and exit paths",
          "18 rejection classes x client forms x random configurations and 5 exit-path classes (30k/600k executions, race-detector build): at most one dispatch, none for rejected requests, handler context cancelled and no reads/writes after ServeHTTP returned.", "5/C18"),
+ "C14": ("exploration", "Go race detector + pool ownership automaton (poison/quarantine) + solo-vs-concurrent differential + porcupine on the pool history",
+         "Race-detector build. 90/1800 rounds: W1 = 32 marker-carrying RPCs (mixed forms, codecs, compressions, some faulty) run alone and then from 2/8/32 goroutines on one Transcoder with yields at the hook points - outcomes must equal the solo outcomes, no foreign marker; W2 = full-duplex streams whose handler reads and writes from two goroutines while the request stream is fault-free or breaks at a chosen message - delivered frames must be the handler's, intact, with one end. The process's own GORACE log is parsed at the end (reports de-duplicated by innermost vanguard frame pair); the pool hooks run an ownership automaton with poison-on-release and quarantine; thorough additionally checks recorded pool histories with porcupine.", "5/C14"),
  "C15": ("exploration", "fresh-vs-used differential over hostile histories with poison-on-release pool hooks and reuse attribution",
          "200/4000 histories of 1..80 hostile requests (mutations, corrupt gzip, limit breaches, backend panics, sizes around the 8 MiB pool cut-off) on one Transcoder under GOMAXPROCS=1, each followed by 10 probe RPCs whose canonical outcomes must equal those on never-used Transcoders; released buffers are poisoned by the pool hook and the hooks prove that probes really received buffers and (de)compressors last used by failed requests (coverage minimum).", "5/C15"),
  "C16": ("exploration", "flush accounting at the recorder + request look-ahead monitor in memory; strict ping-pong over real h2c (bounded progress)",
@@ -66,6 +68,6 @@ for p in props:
             "engine": "vcheck", "level_claimed": {"category": lvl, "text": text, "design_ref": ref},
             "level_note": TB, "technique": "runtime monitoring: " + tech})
     else:
-        m["not_applicable"].append({"property_id": pid, "reason": "monitor not built yet (work in progress); the technique applies"})
+        m["not_applicable"].append({"property_id": pid, "reason": "no check registered"})
 json.dump(m, open(os.path.join(V, 'MANIFEST.json'), 'w'), indent=1)
 print("checks:", len(m["checks"]), "not_applicable:", len(m["not_applicable"]))
